@@ -192,7 +192,7 @@ static std::string RunConfig(int workers, int fetchers, uint64_t& n_blocks)
         bool active = n.tip()->GetBlockHash() == b.GetHash();
         if (active) L.Add(b);
         uint64_t dig = 0;
-        for (auto& [op, c] : n.UtxoByCursor()) { dig = dig * 1000003 + op.hash.GetUint64(0) + op.n; dig = dig * 31 + (uint64_t)c.out.nValue + c.nHeight * 2 + c.fCoinBase; }
+        for (auto& [op, c] : n.UtxoByCursor()) { dig = dig * 1000003 + op.hash.ToUint256().GetUint64(0) + op.n; dig = dig * 31 + (uint64_t)c.out.nValue + c.nHeight * 2 + c.fCoinBase; }
         obs += "bad=" + std::to_string(bad) + " valid=" + std::to_string(r.valid) + " result=" + std::to_string((int)r.result) + " active=" + std::to_string(active) + " utxo=" + std::to_string(dig) + "; ";
         // the serial expectation, independent of any run: valid iff bad == -1
         if ((bad == -1) != active) obs += "[UNEXPECTED verdict] ";
@@ -205,7 +205,6 @@ int main(int argc, char** argv)
 {
     vx::init(argc, argv, "C14", "model_checking", 150, 1500);
     auto& E = vx::ev();
-    LogInstance().DisableLogging();
     bool big = vx::thorough();
     const int bound = big ? 3 : 2;
     uint64_t total_exec = 0, total_points = 0, configs = 0;
@@ -232,6 +231,7 @@ int main(int argc, char** argv)
         E.sample("config sweep (free-running threads): blocks with the failing script in tx -1(none),0,1,2,3 under workers x fetchers; serial observations: " + base.substr(0, 200));
     }
 
+    LogInstance().DisableLogging();
     // (a)
     std::vector<a::Config> ca;
     for (int workers : big ? std::vector<int>{1, 2} : std::vector<int>{1})
